@@ -71,6 +71,12 @@ func shapeValue(shape string, old any, depth int) (any, bool) {
 		return map[string]any{"k": "v"}, false
 	case "deep":
 		return deepValue(depth), false
+	case "twonulls": // two nulls in a row in front of the list's own elements
+		l, _ := old.([]any)
+		return append([]any{nil, nil}, l...), false
+	case "nullthenempty": // a null directly followed by an element without any field
+		l, _ := old.([]any)
+		return append([]any{nil, map[string]any{}}, l...), false
 	}
 	panic("unknown shape " + shape)
 }
